@@ -772,6 +772,45 @@ def native_replay(workdir, ob, inputs, driver_cc):
     return res
 
 
+def native_search(workdir, ob, seconds=25):
+    """A failed modular obligation (kinds D/L) has no verifier counterexample that means anything for the real code (the failing state may be an
+    arbitrary loop state, or a model of the uninterpreted functions).  When the obligation carries an executable native oracle
+    (dfcc['native_search'] = dict(pre=, call=, ret=, post=) in C++ over ob.inputs, the specification evaluated with 128-bit / loop arithmetic),
+    try to attach a concrete failing input: boundary-biased random search on the REAL code (g++ -O1, UBSan).  Found -> the violation is reported
+    with a confirmed input; not found -> it is still reported, with the words no-failing-input-found.  Never the deciding step."""
+    ns = (ob.dfcc or {}).get('native_search')
+    if not ns: return None
+    d = os.path.join(workdir, 'search_' + san(ob.id)); os.makedirs(d, exist_ok=True)
+    ins = ob.inputs
+    L = ['#include <cstdio>', '#include <cstdint>', '#include <cstdlib>', '#include <unistd.h>', '#include <csignal>', ob.prelude,
+         'typedef unsigned __int128 u128;',
+         'static uint64_t rs = 88172645463325252ULL; static uint64_t rnd() { rs ^= rs << 13; rs ^= rs >> 7; rs ^= rs << 17; return rs; }',
+         'static uint64_t pick() { uint64_t r = rnd(); switch (r % 8) { case 0: return rnd() % 16; case 1: return (1ULL << (rnd() % 64)) + (rnd() % 5) - 2; '
+         'case 2: return ~0ULL - (rnd() % 8); case 3: return rnd() >> (rnd() % 64); case 4: return (rnd() % 0x100000000ULL) + 0xfffffff0ULL; default: return rnd(); } }',
+         ns.get('helpers', ''),
+         'int main() { alarm(%d);' % (seconds + 5), '  for (long it = 0; it < 400000000L; ++it) {']
+    for t, n in ins: L.append('    %s %s = (%s)pick();' % (t, n, t))
+    for k, tup in enumerate(ns.get('seeds', [])):     # inputs known to have failed once are tried first
+        L.append('    if (it == %d) { %s }' % (k, ' '.join('%s = (%s)%dULL;' % (n, t, v) for (t, n), v in zip(ins, tup))))
+    L.append('    if (it %% 3 == 1 && it > 64) { %s }' % ' '.join('%s = %s;' % (n, ins[0][1]) for t, n in ins[1:2]))   # equal operands now and then
+    L.append('    if (!(%s)) continue;' % ns['pre'])
+    L.append('    %s r = %s;' % (ns['ret'], ns['call']))
+    L.append('    if (!(%s)) { std::printf("FOUND %s\\n", %s); return 1; }' % (ns['post'], ' '.join('%llx' for _ in ins), ', '.join('(unsigned long long)%s' % n for t, n in ins)))
+    L.append('    if ((it & 0xffff) == 0 && it > 0) { static time_t t0 = 0; if (!t0) t0 = time(0); if (time(0) - t0 > %d) break; }' % seconds)
+    L.append('  }', ); L.append('  std::printf("NONE\\n"); return 0; }')
+    src = os.path.join(d, 'search.cc'); open(src, 'w').write('#include <ctime>\n' + '\n'.join(L) + '\n')
+    exe = os.path.join(d, 'search')
+    rc, out, err, dt = run(['g++', '-std=c++14', '-O1', '-w', '-I' + INC, src, '-o', exe], timeout=600, mem_kb=16 * 1024 * 1024)
+    if rc != 0: return {'found': False, 'note': 'search driver did not build: ' + err[-400:]}
+    rc, out, err, dt = run([exe], timeout=seconds + 15)
+    m = re.search(r'FOUND (.*)', out or '')
+    if m:
+        vals = m.group(1).split()
+        return {'found': True, 'inputs_hex': {n: v for (t, n), v in zip(ins, vals)}, 'oracle': ns['post'], 'call': ns['call'], 'cmd': exe,
+                'confirmed': True, 'source': src}
+    return {'found': False, 'note': 'no failing input among the sampled ones (rc=%s%s)' % (rc, ', the real code did not return: alarm' if rc in (-14, 142) else '')}
+
+
 # ----------------------------------------------------------------------------- lowering self-test (translation validation of ll2c on concrete inputs)
 def selftest(workdir, ob, driver_cc, seed, n_vectors=3):
     """Run every wrapper of a kind-H obligation natively (g++ -O0, no sanitizer) on random concrete inputs and require the translated C,
